@@ -685,7 +685,7 @@ def _uses_chord_filter(case):
 
 
 def classify(case, out, kind):
-    """stable key of the one known defect class: the ONLY deviation is that chunks were admitted by numpy's
+    """stable key of the one known defect class: the ONLY deviation is that chunks were passed by numpy's
     element-wise `data in ar` instead of row membership"""
     if kind != "spec" or case["kind"] != "pipe" or out.get("groups") is None or not _req(case, out):
         return None
